@@ -65,6 +65,54 @@ theorem inv3_cancel_set (s : St) (k : Nat) (r r' : Rec) (h : Inv3 s) (hk : s.key
    own_replace s k r _ h.own hk,
    ownc_congr (s := cancelOpt s r.gen r.cancelOf) rfl rfl (ownc_cancelOpt s r.gen r.cancelOf h.ownc)⟩
 
+/-- cancelling keeps every instance cancelled -/
+theorem allC_cancelOpt (s : St) (g : Nat) (o : Option Nat)
+    (h : ∀ (g : Nat) (y : G) (i : Nat) (x : Inst), s.gens[g]? = some y → y.insts[i]? = some x → x.cancelled = true) :
+    ∀ (g' : Nat) (y : G) (i : Nat) (x : Inst), (cancelOpt s g o).gens[g']? = some y → y.insts[i]? = some x →
+      x.cancelled = true := by
+  cases o with
+  | none => exact h
+  | some j =>
+    intro g' y i x hy hx
+    obtain ⟨y0, x0, hy0, hx0, _, hx'⟩ := getInst_modInst s g j _ g' y i x hy hx
+    rw [hx']
+    split
+    · rfl
+    · exact h g' y0 i x0 hy0 hx0
+
+/-- under a cancelled root context that is still installed, a start creates an instance whose context is
+cancelled: every instance stays cancelled -/
+theorem allC_start (s : St) (k : Nat) (r : Rec) (force : Bool) (hd : s.ctx = some 0)
+    (h : ∀ (g : Nat) (y : G) (i : Nat) (x : Inst), s.gens[g]? = some y → y.insts[i]? = some x → x.cancelled = true) :
+    ∀ (g : Nat) (y : G) (i : Nat) (x : Inst), (start s k r force).gens[g]? = some y → y.insts[i]? = some x →
+      x.cancelled = true := by
+  unfold start
+  split
+  · exact h
+  · split
+    · exact h
+    · have h1 := allC_cancelOpt s r.gen r.cancelOf h
+      simp only []
+      generalize cancelOpt s r.gen r.cancelOf = s1 at h1
+      cases hy : s1.gens[r.gen]? with
+      | none => exact h1
+      | some y =>
+        simp only []
+        intro g y' i x hy' hx
+        simp only [gens_setRec, gens_modG] at hy'
+        by_cases hg : r.gen = g
+        · subst hg
+          simp [hy] at hy'; subst hy'
+          simp only at hx
+          rcases getElem?_snoc_cases _ _ _ _ hx with ⟨_, hx0⟩ | ⟨_, hxe⟩
+          · exact h1 r.gen y i x hy hx0
+          · rw [hxe]; simp [hd]
+        · cases hy2 : s1.gens[g]? with
+          | none => simp [hy2] at hy'
+          | some y2 =>
+            simp [hy2, hg] at hy'; subst hy'
+            exact h1 g y2 i x hy2 hx
+
 theorem inv3_start (s : St) (k : Nat) (r : Rec) (force : Bool) (h : Inv3 s) (hk : s.key k = some r)
     (hctx : s.ctx.isSome = true) : Inv3 (start s k r force) := by
   refine ⟨kinv_start s k r force h.k hk, ?_, ?_⟩
@@ -108,10 +156,29 @@ theorem inv3_start (s : St) (k : Nat) (r : Rec) (force : Bool) (h : Inv3 s) (hk 
                 rw [e, hk1] at hr0; simp at hr0; subst hr0
                 exact hg h2
               exact ⟨r0, by simp [hne, hr0], h2, h3⟩
-  · -- OwnC: the context is set
-    intro g y i x _ _ _
-    have : (start s k r force).ctx = s.ctx := (touch_start s k r force hk).frame.ctx
-    rw [this]; exact hctx
+  · -- OwnC: the context is set and not cancelled, or the new instance is born cancelled like all others
+    intro g y i x hy hx hcx
+    have hc : (start s k r force).ctx = s.ctx := (touch_start s k r force hk).frame.ctx
+    rw [hc]
+    cases hl : isLive s.ctx with
+    | true => rfl
+    | false =>
+      exfalso
+      have hdead : s.ctx = some 0 := by
+        cases hcc : s.ctx with
+        | none => simp [hcc] at hctx
+        | some n =>
+          cases n with
+          | zero => rfl
+          | succ n => simp [hcc, isLive] at hl
+      have hall : ∀ (g : Nat) (y : G) (i : Nat) (x : Inst), s.gens[g]? = some y → y.insts[i]? = some x →
+          x.cancelled = true := by
+        intro g y i x hy hx
+        cases hcx' : x.cancelled with
+        | true => rfl
+        | false => have := h.ownc g y i x hy hx hcx'; rw [hl] at this; cases this
+      have := allC_start s k r force hdead hall g y i x hy hx
+      rw [this] at hcx; cases hcx
 
 theorem inv3_startKey (s : St) (k : Nat) (force : Bool) (h : Inv3 s) : Inv3 (startKey s k force) := by
   unfold startKey
